@@ -68,7 +68,17 @@ fn atoms() -> Vec<Atom> {
         Atom { lit: "qq", var: "qq", val: V::Fail }, // unbound
         Atom { lit: "true", var: "at", val: V::Ok(CelValue::Bool(true)) },
         Atom { lit: "null", var: "an", val: V::Ok(CelValue::Null) },
+        // other programs stored in the same context, referenced by name: one evaluates to true, one fails
+        // (a failing referenced program is a failed operand like any other)
+        Atom { lit: "pgt", var: "pgt", val: V::Ok(CelValue::Bool(true)) },
+        Atom { lit: "pgf", var: "pgf", val: V::Fail },
     ]
+}
+
+/// The stored programs behind the atoms `pgt` / `pgf`: constant in the literal form, reading bindings in the bound form.
+fn stored_programs(bound: bool) -> Vec<(String, rscel::Program)> {
+    let srcs: [(&str, &str); 2] = if bound { [("pgt", "at"), ("pgf", "1 / az")] } else { [("pgt", "2 > 1"), ("pgf", "[1][5]")] };
+    srcs.iter().filter_map(|(n, s)| compile(s).ok().map(|p| (n.to_string(), p))).collect()
 }
 
 fn bindings() -> Vec<(String, CelValue)> {
@@ -286,8 +296,13 @@ fn check_tree(rep: &mut Report, pending: &mut Vec<Pending>, t: &T, at: &[Atom], 
     for bound in [false, true] {
         let src = render(t, at, bound);
         let binds = if bound { bindings() } else { Vec::new() };
+        let stored = stored_programs(bound);
         let out = match compile(&src) {
-            Ok(p) => exec_full(&[("main".to_string(), p)], "main", &binds, &users),
+            Ok(p) => {
+                let mut progs = stored.clone();
+                progs.push(("main".to_string(), p));
+                exec_full(&progs, "main", &binds, &users)
+            }
             Err(e) => crate::api::ExecOut { obs: e, log: "L:0".into() },
         };
         rep.count(Some(&src));
@@ -304,7 +319,7 @@ fn check_tree(rep: &mut Report, pending: &mut Vec<Pending>, t: &T, at: &[Atom], 
         }
         if to_model {
             pending.push(Pending {
-                request: format!("exec {} {}", crate::api::env_wire(&[], &binds, &users), crate::wire::hex(src.as_bytes())),
+                request: format!("exec {} {}", crate::api::env_wire(&stored, &binds, &users), crate::wire::hex(src.as_bytes())),
                 implementation: format!("{} {}", out.obs, out.log),
                 level: 3,
                 input: src.clone(),
